@@ -103,6 +103,13 @@ CLAIMED = {
         "Tie per run: generated placements of writers/readers through the real compiler vs the model (verdict and rejection reason compared in Coq) and vs the driver-count specification; single_driver evaluated in Coq on every accepted emitted design.",
    technique="Rocq proof on a Gallina model of the usage check + verified static rule on the VHDL semantics; correspondence by vm_compute on generated placements",
    design_ref="DESIGN.md §6 C07"),
+ "C02": dict(
+   text="Proof. Unbounded theorems: C02_type_width (every well-typed expression tree evaluates, under the documented semantics written from the property text, to a value of exactly the documented type and width - induction over trees, all widths) and "
+        "C02_agrees_with_numeric_std_* (for + - * truncdiv mod rem, comparisons, neg/abs, shifts, resize: the documented value equals what numeric_std computes on the operand shapes the backend emits, all widths and values), select-first-match, chained comparison, concat, shift kind. "
+        "Per generated design (every operator x operand-type x width pair at small widths, int operands either side, slices, run-time indices, views, if-expressions, select_with, any/all, arrays, random trees of depth 3) a kernel-checked theorem that the parsed VHDL "
+        "emitted on this run yields the documented value for ALL operand valuations.",
+   technique="Rocq proof: typed reference evaluator + agreement with the numeric_std model for all widths; verified checker per compiled expression design, exhaustive over operand values",
+   design_ref="DESIGN.md §6 C02"),
 }
 ALL = ["C%02d" % i for i in range(1, 21)]
 
